@@ -142,7 +142,7 @@ def explore(ctx, specs, monitor_fns, sampler=None):
                 #  linearisation point of an operation is its status write, not the log record written
                 #  when the call returns, so the recorded order is not the model's)
                 vb = [(i, r) for i, r in enumerate(batch) if not r.spec.get('nonthreaded') and not r.spec.get('state_write_yield')
-                      and not r.spec.get('submit_yield')]
+                      and not r.spec.get('submit_yield') and not r.spec.get('submit_fault')]
                 if vb:
                     rej0, out, spans = validate_batch([r for _, r in vb])
                     rej = {vb[j][0]: v for j, v in rej0.items()}
@@ -388,6 +388,48 @@ def specs_shared_window(ctx, n):
                    io_chunksize=rng.choice([2, 4]))
         out.append(dict(transfers=[dict(kind='download', dst='nonseekable', size=rng.choice([8, 12, 16])) for _ in range(k)],
                         cfg=cfg, chooser={'kind': ['random', 'pct', 'pct'][i % 3], 'seed': rng.randrange(1 << 30), 'depth': 6}))
+    return out
+
+
+def specs_submit_fault(ctx, kinds, seeds=2):
+    """The pool behind a stage cannot start another worker thread: the n-th submit to the request
+    stage (or, for downloads, to the IO stage) raises what ThreadPoolExecutor.submit raises.  The
+    transfer fails; everything already handed out must still be waited for before done is announced.
+    Monitors only (the staged-executor model has no failing submit)."""
+    rng = ctx.rng('specs', 'submit-fault')
+    out = []
+    for k in kinds:
+        for ex, nths in ((0, (1, 2, 3)), (2, (1, 2))):
+            if ex == 2 and k['kind'] != 'download':
+                continue
+            for nth in nths:
+                for _ in range(seeds):
+                    out.append(dict(transfers=[dict(k)], submit_fault=dict(executor=ex, nth=nth), submit_yield=bool(rng.randrange(2)),
+                                    cfg=dict(max_request_concurrency=rng.choice([1, 2, 3])),
+                                    chooser={'kind': rng.choice(['random', 'pct']), 'seed': rng.randrange(1 << 30), 'depth': 4}))
+    return out
+
+
+def specs_submit_fault_handoff(ctx, subs=None):
+    """Directed schedules for one hand-off: a ranged download to a file whose submission fails at its
+    N-th submit exactly while the first GetObject task has handed its k-th chunk to the IO stage (the
+    write is running, past its own done-check) but has not yet recorded that future with the
+    coordinator.  The failing submission task first sees only the GetObject future."""
+    out = []
+    for N in (2, 3):
+        for k in (1, 2, 3):
+            for cs, io in ((4, 2), (6, 2), (4, 1)):
+                for seed in range(2):
+                    phases = [dict(run='exec2', until={'ev': 'enqueued', 'stage': 'req'}, times=N - 1),
+                              dict(run='exec1', until={'ev': 'enqueued', 'stage': 'io'}, times=k),
+                              dict(run='exec3', until={'ev': 'done_check', 'done': False}, times=k),
+                              dict(run='exec2'), dict(run='exec1'), dict(run='exec2')]
+                    t = dict(kind='download', dst='path', size=cs * 3)
+                    if subs:
+                        t['subs'] = subs
+                    out.append(dict(transfers=[t], submit_fault=dict(executor=0, nth=N), submit_yield=True,
+                                    cfg=dict(max_request_concurrency=2, multipart_chunksize=cs, multipart_threshold=cs, io_chunksize=io),
+                                    chooser={'kind': 'phased', 'phases': phases, 'then': {'kind': ['random', 'first'][seed], 'seed': N * 10 + k}}))
     return out
 
 
